@@ -180,17 +180,6 @@ def score_matrix(derivs, n, T):
     return M, u
 
 
-def score_of_tree(tree, tag, dep, penalty):
-    """model score of a canonical tree exactly as C09 states it; returns (score, head)"""
-    def rec(t):
-        if t[0] == 'L':
-            i = t[2]
-            return None, i
-        raise AssertionError
-    # generic recursion that needs the tag index: leaves are ('L', cat, i); tag looked up by category by the caller
-    raise NotImplementedError
-
-
 # ---------------------------------------------------------------- beam oracle (C16 statement)
 def admitted_tags(row, pruning_size, beta, use_beta, margin=0.3):
     """(set of admitted tag indices, ambiguous?) for one word's tag scores, from the statement of C16"""
@@ -448,21 +437,21 @@ class Native(object):
                 c, cc = rec(kids[0])
                 rs = self.un_results.get(cc, [])
                 if rule >= len(rs):
-                    problem.append(f'unary rule index {rule} out of range for {self.cats[cc]}')
+                    problem.append('RULE: ' + f'unary rule index {rule} out of range for {self.cats[cc]}')
                     return ('U', str(self.cats[cat]), ('?', '?'), c), cat
                 r = rs[rule]
                 if self.ids[r.cat] != cat:
-                    problem.append(f'unary item category {self.cats[cat]} but rule {rule} of {self.cats[cc]} gives {r.cat}')
+                    problem.append('RULE: ' + f'unary item category {self.cats[cat]} but rule {rule} of {self.cats[cc]} gives {r.cat}')
                 return ('U', str(self.cats[cat]), (r.op_string, r.op_symbol), c), cat
             l, lc = rec(kids[0])
             r_, rc = rec(kids[1])
             rs = self.bin_results.get((lc, rc), [])
             if rule >= len(rs):
-                problem.append(f'binary rule index {rule} out of range for {self.cats[lc]} {self.cats[rc]}')
+                problem.append('RULE: ' + f'binary rule index {rule} out of range for {self.cats[lc]} {self.cats[rc]}')
                 return ('B', str(self.cats[cat]), ('?', '?', True), l, r_), cat
             r = rs[rule]
             if self.ids[r.cat] != cat:
-                problem.append(f'binary item category {self.cats[cat]} but rule {rule} gives {r.cat}')
+                problem.append('RULE: ' + f'binary item category {self.cats[cat]} but rule {rule} gives {r.cat}')
             return ('B', str(self.cats[cat]), lab(r), l, r_), cat
         tree, _ = rec(t)
         return tree, problem
